@@ -2,11 +2,13 @@ import Acra.Drv.SpecFTI
 import Acra.Drv.SpecFTI2
 import Acra.Drv.SpecSearch
 import Acra.Drv.SpecMpeg
+import Acra.Drv.SpecCh10
 namespace Acra.Drv
 def specFuncs : List Func := List.flatten [
   specFuncsFTI,
   specFuncsFTI2,
   specFuncsSearch,
-  specFuncsMpeg
+  specFuncsMpeg,
+  specFuncsCh10
 ]
 end Acra.Drv
